@@ -80,6 +80,7 @@ def op_strategy(depth=1):
             lambda h: {"op": "add_hook", "hook": h}),
         st.sampled_from(["probe1", "probe2", "rewrite", "extrude", "drop"]).map(
             lambda h: {"op": "remove_hook", "hook": h}),
+        st.just({"op": "other_builder"}),
     )
 
 
@@ -134,6 +135,11 @@ class Runner:
     def step(self, op):
         g, s = self.g, self.s
         name = op["op"]
+        if name == "other_builder":
+            from vf.statehist import other_builder_activity
+            other_builder_activity()      # registers a hook on ANOTHER builder etc.
+            self.cl.add("other_builder_active")
+            return
         if name == "add_hook":
             g.add_hook(self.hooks[op["hook"]])
             if op["hook"] not in self.installed:
